@@ -1,4 +1,3 @@
-from math import ceil
 from typing import Callable
 from typing import Optional
 from typing import Tuple
@@ -150,7 +149,7 @@ class MertonJumpStock(BasePrimary):
 
         output = generate_merton_jump(
             n_paths=n_paths,
-            n_steps=ceil(time_horizon / self.dt + 1),
+            n_steps=self._get_n_steps(time_horizon),
             init_state=init_state,
             sigma=self.sigma,
             mu=self.mu,
